@@ -53,7 +53,7 @@ data:
 `
 
 // the rendered object depends on the environment of the template's namespace (HyperShift hosted cluster)
-const tmplEnvLine = `  h: {{ with .environment.hyperShift }}{{ with .hostedCluster }}{{ .metadata.name | quote }}{{ else }}"none"{{ end }}{{ else }}"nohs"{{ end }}
+const tmplEnvLine = `  h: {{ if hasKey .environment "hyperShift" }}{{ with .environment.hyperShift.hostedCluster }}{{ .metadata.name | quote }}{{ else }}"none"{{ end }}{{ else }}"nohs"{{ end }}
 `
 
 const tmplBad = `apiVersion: v1
